@@ -150,7 +150,8 @@ type GenOpts struct {
 	RS        int
 	NoRename  bool
 	// known-finding relaxations
-	AvoidSuffixes []string // KF-suffix: names ending in the active pipeline suffix
+	AvoidSuffixes   []string // KF1: names ending in the active pipeline suffix
+	NoSymlinkRename bool     // KF7: rename of a directory holding a symlink target
 }
 
 type genState struct {
@@ -231,6 +232,10 @@ func GenHistory(r *rand.Rand, o GenOpts) ([]Op, Universe) {
 	}
 	if o.RS == 0 {
 		o.RS = 20
+	}
+	if o.Symlinks && o.NoSymlinkRename {
+		// KF7: histories with symlinks do not rename
+		o.NoRename = true
 	}
 	g := &genState{r: r, u: GenUniverseAvoid(r, o.Style, o.AvoidSuffixes), o: o, now: 946684800}
 	g.ref = NewRefFS(func() int64 { return g.now * 1e9 }, 0o777)
